@@ -115,6 +115,14 @@ class Qual:
             if l is not None:
                 pp = Prov(par).local(l)
                 return self.check_prov(par, pp, [], None, depth + 1, seen, sent)
+            # the variable of an inlined helper may have been renamed on a clash (name__k): every candidate must do
+            cands = [l2 for nm, l2 in names.items() if re.match(r"^%s__\d+$" % re.escape(m.group(1)), nm)]
+            if cands:
+                for l2 in cands:
+                    ok_, why_ = self.check_prov(par, Prov(par).local(l2), [], None, depth + 1, seen, sent)
+                    if not ok_:
+                        return ok_, why_
+                return True, "captured variable of an inlined helper"
             if par.kind == "closure" and depth < 8:
                 # captured by the enclosing closure in turn
                 return self.check_prov(par, p, [], None, depth + 1, seen, sent)
